@@ -1,4 +1,265 @@
+(* Properties/C08.v — "Powers and integer logarithms are exact."
+   Every theorem is stated for ALL digit widths w > 0 (ilog10: 10 < 2^w so that the constant 10
+   is a digit), ALL digit counts n >= 1, ALL well-formed operands and ALL exponents 0 <= e.
+   A = uval, SA = sval, M = Mod w n = 2^BITS.
+
+   The correctness of multiplication / division is proved by the C02 / C03 branches; here it
+   enters as the explicit premises mul_spec / div_spec / div_digit_spec (plain Definitions of
+   Prop in Proofs/PowDeps.v, no axioms), to be discharged when the branches are merged.
+   The logarithm theorems assume BITS < 2^31 (the Rust `ExpType` is u32 and BITS fits it), which
+   is what keeps the `m * 2` of iilog from wrapping. *)
 From Bnum Require Import Base Prim.
-Theorem C08_placeholder : forall w n ds, 0 <= w -> wf w n ds -> 0 <= uval w ds < Mod w n.
-Proof. exact uval_bounds. Qed.
-Print Assumptions C08_placeholder.
+From Bnum.Model Require Import Digit Core Shift AddSub Mul Div Bits Pow.
+From Bnum.Proofs Require Import PowDeps Pow Ilog.
+
+(* ================= powers, unsigned ================= *)
+
+Theorem C08_U_overflowing_pow : mul_spec -> forall w n a e,
+  0 < w -> (0 < n)%nat -> wf w n a -> 0 <= e ->
+  let '(r, f) := U_overflowing_pow w a e in
+  wf w n r /\ uval w r = (uval w a ^ e) mod Mod w n /\ f = (Mod w n <=? uval w a ^ e).
+Proof. exact U_overflowing_pow_ok. Qed.
+Print Assumptions C08_U_overflowing_pow.
+
+Theorem C08_U_checked_pow : mul_spec -> forall w n a e,
+  0 < w -> (0 < n)%nat -> wf w n a -> 0 <= e ->
+  if Mod w n <=? uval w a ^ e then U_checked_pow w a e = None
+  else exists r, U_checked_pow w a e = Some r /\ wf w n r /\ uval w r = uval w a ^ e.
+Proof. exact U_checked_pow_ok. Qed.
+Print Assumptions C08_U_checked_pow.
+
+Theorem C08_U_wrapping_pow : mul_spec -> forall w n a e,
+  0 < w -> (0 < n)%nat -> wf w n a -> 0 <= e ->
+  wf w n (U_wrapping_pow w a e) /\ uval w (U_wrapping_pow w a e) = (uval w a ^ e) mod Mod w n.
+Proof. exact U_wrapping_pow_ok. Qed.
+Print Assumptions C08_U_wrapping_pow.
+
+Theorem C08_U_saturating_pow : mul_spec -> forall w n a e,
+  0 < w -> (0 < n)%nat -> wf w n a -> 0 <= e ->
+  wf w n (U_saturating_pow w a e) /\
+  uval w (U_saturating_pow w a e) = Z.min (Mod w n - 1) (uval w a ^ e).
+Proof. exact U_saturating_pow_ok. Qed.
+Print Assumptions C08_U_saturating_pow.
+
+Theorem C08_U_strict_pow : mul_spec -> forall w n a e,
+  0 < w -> (0 < n)%nat -> wf w n a -> 0 <= e ->
+  if Mod w n <=? uval w a ^ e then U_strict_pow w a e = Panic
+  else exists r, U_strict_pow w a e = Ret r /\ wf w n r /\ uval w r = uval w a ^ e.
+Proof. exact U_strict_pow_ok. Qed.
+Print Assumptions C08_U_strict_pow.
+
+(* inherent pow: panics exactly on overflow in debug builds, wraps in release builds *)
+Theorem C08_U_pow : mul_spec -> forall dbg w n a e,
+  0 < w -> (0 < n)%nat -> wf w n a -> 0 <= e ->
+  if dbg && (Mod w n <=? uval w a ^ e) then U_pow dbg w a e = Panic
+  else exists r, U_pow dbg w a e = Ret r /\ wf w n r /\ uval w r = (uval w a ^ e) mod Mod w n.
+Proof. exact U_pow_ok. Qed.
+Print Assumptions C08_U_pow.
+
+(* ================= powers, signed ================= *)
+
+Theorem C08_I_overflowing_pow : mul_spec -> forall w n a e,
+  0 < w -> (0 < n)%nat -> wf w n a -> 0 <= e ->
+  let '(r, f) := I_overflowing_pow w a e in
+  wf w n r /\ sval w r = wrapS (Mod w n) (sval w a ^ e) /\ f = negb (inS (Mod w n) (sval w a ^ e)).
+Proof. exact I_overflowing_pow_ok. Qed.
+Print Assumptions C08_I_overflowing_pow.
+
+Theorem C08_I_checked_pow : mul_spec -> forall w n a e,
+  0 < w -> (0 < n)%nat -> wf w n a -> 0 <= e ->
+  if inS (Mod w n) (sval w a ^ e)
+  then exists r, I_checked_pow w a e = Some r /\ wf w n r /\ sval w r = sval w a ^ e
+  else I_checked_pow w a e = None.
+Proof. exact I_checked_pow_ok. Qed.
+Print Assumptions C08_I_checked_pow.
+
+Theorem C08_I_wrapping_pow : mul_spec -> forall w n a e,
+  0 < w -> (0 < n)%nat -> wf w n a -> 0 <= e ->
+  wf w n (I_wrapping_pow w a e) /\ sval w (I_wrapping_pow w a e) = wrapS (Mod w n) (sval w a ^ e).
+Proof. exact I_wrapping_pow_ok. Qed.
+Print Assumptions C08_I_wrapping_pow.
+
+(* clamp to [MIN, MAX] *)
+Theorem C08_I_saturating_pow : mul_spec -> forall w n a e,
+  0 < w -> (0 < n)%nat -> wf w n a -> 0 <= e ->
+  wf w n (I_saturating_pow w a e) /\
+  sval w (I_saturating_pow w a e) = Z.max (- (Mod w n / 2)) (Z.min (Mod w n / 2 - 1) (sval w a ^ e)).
+Proof. exact I_saturating_pow_ok. Qed.
+Print Assumptions C08_I_saturating_pow.
+
+(* on overflow: MIN exactly for a negative base with an odd exponent, MAX otherwise *)
+Theorem C08_I_saturating_pow_min : mul_spec -> forall w n a e,
+  0 < w -> (0 < n)%nat -> wf w n a -> 0 <= e -> inS (Mod w n) (sval w a ^ e) = false ->
+  I_saturating_pow w a e = if (sval w a <? 0) && Z.odd e then IMIN w n else IMAX w n.
+Proof. exact I_saturating_pow_min. Qed.
+Print Assumptions C08_I_saturating_pow_min.
+
+Theorem C08_I_strict_pow : mul_spec -> forall w n a e,
+  0 < w -> (0 < n)%nat -> wf w n a -> 0 <= e ->
+  if inS (Mod w n) (sval w a ^ e)
+  then exists r, I_strict_pow w a e = Ret r /\ wf w n r /\ sval w r = sval w a ^ e
+  else I_strict_pow w a e = Panic.
+Proof. exact I_strict_pow_ok. Qed.
+Print Assumptions C08_I_strict_pow.
+
+Theorem C08_I_pow : mul_spec -> forall dbg w n a e,
+  0 < w -> (0 < n)%nat -> wf w n a -> 0 <= e ->
+  if dbg && negb (inS (Mod w n) (sval w a ^ e)) then I_pow dbg w a e = Panic
+  else exists r, I_pow dbg w a e = Ret r /\ wf w n r /\ sval w r = wrapS (Mod w n) (sval w a ^ e).
+Proof. exact I_pow_ok. Qed.
+Print Assumptions C08_I_pow.
+
+(* ================= logarithms, unsigned ================= *)
+
+Theorem C08_U_checked_ilog2 : forall w n a, 0 < w -> wf w n a ->
+  U_checked_ilog2 w a = if uval w a =? 0 then None else Some (Z.log2 (uval w a)).
+Proof. exact U_checked_ilog2_ok. Qed.
+Print Assumptions C08_U_checked_ilog2.
+
+Theorem C08_U_ilog2 : forall w n a, 0 < w -> wf w n a ->
+  U_ilog2 w a = if uval w a =? 0 then Panic else Ret (Z.log2 (uval w a)).
+Proof. exact U_ilog2_ok. Qed.
+Print Assumptions C08_U_ilog2.
+
+(* DESIGN Appendix A.4: iilog(m, b, k) with b >= 2^m (b = beta^m), k >= 1, b*k inside the type and
+   fuel for the remaining doublings of m returns (m*(1+t), k / b^t) where t = floor(log_b k);
+   it neither runs out of fuel nor panics in either build mode (the b*b it computes never
+   overflows). *)
+Theorem C08_iilog : mul_spec -> div_spec -> forall dbg w n,
+  0 < w -> (0 < n)%nat -> bits w n < 2 ^ 31 ->
+  forall f m b k, wf w n b -> wf w n k ->
+  1 <= m -> 2 ^ m <= uval w b -> 1 <= uval w k -> uval w b * uval w k < Mod w n ->
+  bits w n <= m * 2 ^ Z.of_nat f ->
+  exists t q, iilog (S f) dbg w m b k = Some (Ret (m * (1 + t), q)) /\ wf w n q /\ 0 <= t /\
+              uval w q = uval w k / uval w b ^ t /\ 1 <= uval w q < uval w b.
+Proof. exact iilog_ok. Qed.
+Print Assumptions C08_iilog.
+
+(* total (fuel suffices: never None), panic-free in debug and release builds, and exact *)
+Theorem C08_U_checked_ilog : mul_spec -> div_spec -> forall dbg w n a base,
+  0 < w -> (0 < n)%nat -> bits w n < 2 ^ 31 -> wf w n a -> wf w n base ->
+  0 < uval w a -> 2 <= uval w base ->
+  exists k, U_checked_ilog dbg w a base = Some (Ret (Some k)) /\ 0 <= k /\
+            uval w base ^ k <= uval w a < uval w base ^ (k + 1).
+Proof. exact U_checked_ilog_ok. Qed.
+Print Assumptions C08_U_checked_ilog.
+
+Theorem C08_U_checked_ilog_none : mul_spec -> div_spec -> forall dbg w n a base,
+  0 < w -> (0 < n)%nat -> bits w n < 2 ^ 31 -> wf w n a -> wf w n base ->
+  (U_checked_ilog dbg w a base = Some (Ret None) <-> uval w a = 0 \/ uval w base < 2).
+Proof. exact U_checked_ilog_none. Qed.
+Print Assumptions C08_U_checked_ilog_none.
+
+Theorem C08_U_checked_ilog10 : mul_spec -> div_spec -> div_digit_spec -> forall dbg w n a,
+  0 < w -> 10 < B w -> (0 < n)%nat -> bits w n < 2 ^ 31 -> wf w n a -> 0 < uval w a ->
+  exists k, U_checked_ilog10 dbg w a = Some (Ret (Some k)) /\ 0 <= k /\
+            10 ^ k <= uval w a < 10 ^ (k + 1).
+Proof. exact U_checked_ilog10_ok. Qed.
+Print Assumptions C08_U_checked_ilog10.
+
+Theorem C08_U_checked_ilog10_none : forall dbg w n a, 0 < w -> wf w n a ->
+  uval w a = 0 -> U_checked_ilog10 dbg w a = Some (Ret None).
+Proof. exact U_checked_ilog10_none. Qed.
+Print Assumptions C08_U_checked_ilog10_none.
+
+(* ilog / ilog10 panic exactly in the None cases *)
+Theorem C08_U_ilog : mul_spec -> div_spec -> forall dbg w n a base,
+  0 < w -> (0 < n)%nat -> bits w n < 2 ^ 31 -> wf w n a -> wf w n base ->
+  if (uval w a =? 0) || (uval w base <? 2) then U_ilog dbg w a base = Some Panic
+  else exists k, U_ilog dbg w a base = Some (Ret k) /\ 0 <= k /\
+                 uval w base ^ k <= uval w a < uval w base ^ (k + 1).
+Proof. exact U_ilog_ok. Qed.
+Print Assumptions C08_U_ilog.
+
+Theorem C08_U_ilog10 : mul_spec -> div_spec -> div_digit_spec -> forall dbg w n a,
+  0 < w -> 10 < B w -> (0 < n)%nat -> bits w n < 2 ^ 31 -> wf w n a ->
+  if uval w a =? 0 then U_ilog10 dbg w a = Some Panic
+  else exists k, U_ilog10 dbg w a = Some (Ret k) /\ 0 <= k /\ 10 ^ k <= uval w a < 10 ^ (k + 1).
+Proof. exact U_ilog10_ok. Qed.
+Print Assumptions C08_U_ilog10.
+
+(* ================= logarithms, signed ================= *)
+
+Theorem C08_I_checked_ilog2 : forall w n a, 0 < w -> (0 < n)%nat -> wf w n a ->
+  I_checked_ilog2 w a = if sval w a <=? 0 then None else Some (Z.log2 (sval w a)).
+Proof. exact I_checked_ilog2_ok. Qed.
+Print Assumptions C08_I_checked_ilog2.
+
+Theorem C08_I_ilog2 : forall w n a, 0 < w -> (0 < n)%nat -> wf w n a ->
+  I_ilog2 w a = if sval w a <=? 0 then Panic else Ret (Z.log2 (sval w a)).
+Proof. exact I_ilog2_ok. Qed.
+Print Assumptions C08_I_ilog2.
+
+Theorem C08_I_checked_ilog : mul_spec -> div_spec -> forall dbg w n a base,
+  0 < w -> (0 < n)%nat -> bits w n < 2 ^ 31 -> wf w n a -> wf w n base ->
+  0 < sval w a -> 2 <= sval w base ->
+  exists k, I_checked_ilog dbg w a base = Some (Ret (Some k)) /\ 0 <= k /\
+            sval w base ^ k <= sval w a < sval w base ^ (k + 1).
+Proof. exact I_checked_ilog_ok. Qed.
+Print Assumptions C08_I_checked_ilog.
+
+Theorem C08_I_checked_ilog_none : mul_spec -> div_spec -> forall dbg w n a base,
+  0 < w -> (0 < n)%nat -> bits w n < 2 ^ 31 -> wf w n a -> wf w n base ->
+  (I_checked_ilog dbg w a base = Some (Ret None) <-> sval w a <= 0 \/ sval w base < 2).
+Proof. exact I_checked_ilog_none. Qed.
+Print Assumptions C08_I_checked_ilog_none.
+
+Theorem C08_I_checked_ilog10 : mul_spec -> div_spec -> div_digit_spec -> forall dbg w n a,
+  0 < w -> 10 < B w -> (0 < n)%nat -> bits w n < 2 ^ 31 -> wf w n a ->
+  if sval w a <=? 0 then I_checked_ilog10 dbg w a = Some (Ret None)
+  else exists k, I_checked_ilog10 dbg w a = Some (Ret (Some k)) /\ 0 <= k /\
+                 10 ^ k <= sval w a < 10 ^ (k + 1).
+Proof. exact I_checked_ilog10_ok. Qed.
+Print Assumptions C08_I_checked_ilog10.
+
+Theorem C08_I_ilog : mul_spec -> div_spec -> forall dbg w n a base,
+  0 < w -> (0 < n)%nat -> bits w n < 2 ^ 31 -> wf w n a -> wf w n base ->
+  if (sval w a <=? 0) || (sval w base <? 2) then I_ilog dbg w a base = Some Panic
+  else exists k, I_ilog dbg w a base = Some (Ret k) /\ 0 <= k /\
+                 sval w base ^ k <= sval w a < sval w base ^ (k + 1).
+Proof. exact I_ilog_ok. Qed.
+Print Assumptions C08_I_ilog.
+
+Theorem C08_I_ilog10 : mul_spec -> div_spec -> div_digit_spec -> forall dbg w n a,
+  0 < w -> 10 < B w -> (0 < n)%nat -> bits w n < 2 ^ 31 -> wf w n a ->
+  if sval w a <=? 0 then I_ilog10 dbg w a = Some Panic
+  else exists k, I_ilog10 dbg w a = Some (Ret k) /\ 0 <= k /\ 10 ^ k <= sval w a < 10 ^ (k + 1).
+Proof. exact I_ilog10_ok. Qed.
+Print Assumptions C08_I_ilog10.
+
+(* ================= the hypotheses are satisfiable; the model computes ================= *)
+(* w = 8, n = 2: u16 / i16 as two bytes, little endian *)
+
+Example ex_wf : wf 8 2 [3; 0] /\ wf 8 2 [254; 255] /\ (0 < 2)%nat /\ 0 < 8 /\ 10 < B 8 /\ bits 8 2 < 2 ^ 31.
+Proof. repeat split; try (vm_compute; reflexivity); try lia; repeat constructor; unfold digit_ok; vm_compute; intuition discriminate. Qed.
+
+(* 3^5 = 243 *)
+Example ex_pow_exact : U_overflowing_pow 8 [3; 0] 5 = ([243; 0], false).
+Proof. vm_compute. reflexivity. Qed.
+(* 3^11 = 177147 = 2*65536 + 46075 = 2*65536 + 0xB3FB *)
+Example ex_pow_wrap : U_overflowing_pow 8 [3; 0] 11 = ([251; 179], true).
+Proof. vm_compute. reflexivity. Qed.
+Example ex_pow_zero_zero : U_overflowing_pow 8 [0; 0] 0 = ([1; 0], false).
+Proof. vm_compute. reflexivity. Qed.
+(* 2^16 wraps to 0 with the flag; the early exit of checked_pow agrees *)
+Example ex_pow_two_16 : U_overflowing_pow 8 [2; 0] 16 = ([0; 0], true) /\ U_checked_pow 8 [2; 0] 16 = None
+                        /\ U_saturating_pow 8 [2; 0] 16 = [255; 255] /\ U_pow true 8 [2; 0] 16 = Panic
+                        /\ U_pow false 8 [2; 0] 16 = Ret [0; 0].
+Proof. vm_compute. repeat split; reflexivity. Qed.
+(* (-2)^15 = -32768 = i16::MIN exactly: representable, no overflow *)
+Example ex_ipow_min : I_overflowing_pow 8 [254; 255] 15 = ([0; 128], false) /\ I_checked_pow 8 [254; 255] 15 = Some [0; 128].
+Proof. vm_compute. split; reflexivity. Qed.
+(* (-2)^17 overflows: saturates to MIN; (-2)^16 = 65536 overflows: saturates to MAX *)
+Example ex_ipow_sat : I_saturating_pow 8 [254; 255] 17 = [0; 128] /\ I_saturating_pow 8 [254; 255] 16 = [255; 127]
+                      /\ I_checked_pow 8 [254; 255] 16 = None /\ I_pow true 8 [254; 255] 16 = Panic.
+Proof. vm_compute. repeat split; reflexivity. Qed.
+(* logs: 1000 = [232; 3] *)
+Example ex_ilog10 : U_checked_ilog10 true 8 [232; 3] = Some (Ret (Some 3)) /\ U_checked_ilog10 false 8 [231; 3] = Some (Ret (Some 2)).
+Proof. vm_compute. split; reflexivity. Qed.
+Example ex_ilog : U_checked_ilog true 8 [255; 255] [3; 0] = Some (Ret (Some 10))      (* 3^10 = 59049 <= 65535 < 3^11 *)
+                  /\ U_checked_ilog true 8 [255; 255] [1; 0] = Some (Ret None)
+                  /\ U_checked_ilog true 8 [0; 0] [3; 0] = Some (Ret None)
+                  /\ U_ilog false 8 [0; 0] [3; 0] = Some Panic.
+Proof. vm_compute. repeat split; reflexivity. Qed.
+Example ex_ilog2 : U_checked_ilog2 8 [0; 128] = Some 15 /\ U_checked_ilog2 8 [0; 0] = None /\ I_checked_ilog2 8 [0; 128] = None.
+Proof. vm_compute. repeat split; reflexivity. Qed.
